@@ -27,6 +27,7 @@ use super::runner::Runner;
 use super::subprocess_runner::SubprocessRunner;
 use crate::config::OutputStreamControl;
 use crate::config::TestCaseConfig;
+use crate::escaping::strip_colors_bytes;
 use crate::lossy_string;
 use crate::newline::BytesNewline;
 use crate::newline::SplitLinesByNewline;
@@ -80,7 +81,12 @@ impl Executor for BashScriptExecutor {
         context: &ExecutionContext,
     ) -> Result<Vec<Output>> {
         let salt = random_string(SUFFIX_RANDOM_SIZE);
-        let testcase = compile_testcase(testcases, context, &salt)?;
+        let mut testcase = compile_testcase(testcases, context, &salt)?;
+
+        // ANSI escape sequences are stripped per test case, after the output has
+        // been divided again (stripping must not interfere with the dividers)
+        let strip_ansi_escaping = testcase.config.strip_ansi_escaping == Some(true);
+        testcase.config.strip_ansi_escaping = None;
         let runner = SubprocessRunner(self.0.to_owned());
         let output = runner
             .run("script", &testcase, context)
@@ -167,6 +173,17 @@ impl Executor for BashScriptExecutor {
             )?;
         }
 
+        if strip_ansi_escaping {
+            for output in outputs.iter_mut() {
+                output.stdout = strip_colors_bytes((&output.stdout).into())
+                    .map_err(|err| ExecutionError::aborted(err, None))?
+                    .into();
+                output.stderr = strip_colors_bytes((&output.stderr).into())
+                    .map_err(|err| ExecutionError::aborted(err, None))?
+                    .into();
+            }
+        }
+
         Ok(outputs)
     }
 }
@@ -203,6 +220,7 @@ fn compile_testcase(
         set_consistent!(keep_crlf);
         set_consistent!(output_stream);
         set_consistent!(skip_document_code);
+        set_consistent!(strip_ansi_escaping);
         set_consistent!(wait);
         if !config.environment.is_empty() && config.environment != testcase.config.environment {
             return Err(ExecutionError::failed(
@@ -459,6 +477,7 @@ mod tests {
     use super::DividerSearch;
     use super::parse_divider_bytes;
     use crate::config::TestCaseConfig;
+use crate::escaping::strip_colors_bytes;
     use crate::executors::error::ExecutionError;
     use crate::executors::error::ExecutionTimeout;
     use crate::executors::executor::tests::combined_output_test_suite;
